@@ -295,11 +295,23 @@ pub fn run(ctx: &mut Ctx) {
         let ncalls = rng.below(19) + 2;
         let calls: Vec<Call> = (0..ncalls).map(|_| random_call(&mut rng, &pool)).collect();
         // prior buffer content: empty, sentinel bytes, or something that looks like JSONB
-        let start: Vec<u8> = match i % 3 {
+        let mut start: Vec<u8> = match i % 3 {
+            _ if i % 61 == 9 && !ctx.miri => {
+                // a buffer that already holds more than 2^16 (sometimes 2^24 in thorough) bytes
+                let n = if ctx.tier == crate::monitor::Tier::Thorough && i % 610 == 9 { (1usize << 24) + 5 } else { 65_530 + rng.below(20) };
+                (0..n).map(|k| (k * 31 % 251) as u8).collect()
+            }
             0 => vec![],
             1 => vec![0xAA, 0x55, 0x00, 0xFF, 0x80, 0x40, 0x20],
             _ => refcodec::encode(&pool[0]),
         };
+        // spare capacity of every size: exactly full, a little room, lots of room
+        match rng.below(4) {
+            0 => start.shrink_to_fit(),
+            1 => start.reserve_exact(1 + rng.below(7)),
+            2 => start.reserve(4096 + rng.below(100_000)),
+            _ => {}
+        }
         let start_offs: Vec<u64> = if i % 2 == 0 { vec![] } else { vec![3, start.len() as u64] };
         ctx.sample(|| format!("batch of {} calls: {:?}", calls.len(), calls.iter().map(|c| c.name.clone()).collect::<Vec<_>>()));
         ctx.distinct(crate::prng::hash_bytes(format!("{:?}", calls.iter().map(|c| &c.describe).collect::<Vec<_>>()).as_bytes()));
